@@ -521,6 +521,47 @@ func (c *Ctx) rangeDeleteLint(rule string, pkgs []string) {
 		if len(loops) == 0 {
 			continue
 		}
+		// helpers called inside the loop that delete in place from a slice
+		// obtained through the same aliasing getter as the loop operand
+		for _, b := range f.Blocks {
+			for _, ins := range b.Instrs {
+				call, ok := ins.(*ssa.Call)
+				if !ok {
+					continue
+				}
+				h := call.Call.StaticCallee()
+				if h == nil || h.Blocks == nil || h.Pkg != f.Pkg && (h.Pkg == nil || topFunc(f).Pkg == nil || h.Pkg.Pkg != topFunc(f).Pkg.Pkg) {
+					continue
+				}
+				for li, l := range loops {
+					if !(l.header.Dominates(b) && blockReach(b)[l.header]) {
+						continue
+					}
+					lg, larg := getterOrigin(l.x, 0)
+					if lg == nil || !returnsAliasedSlice(lg) {
+						continue
+					}
+					for _, d := range inPlaceDeletes(h) {
+						dg, darg := getterOrigin(d.Call.Args[0], 0)
+						if dg != lg {
+							continue
+						}
+						// the getter's argument in the helper is a parameter bound to the same value at this call
+						bound := false
+						for pi, p := range h.Params {
+							if darg == ssa.Value(p) && pi < len(call.Call.Args) && sameValue(call.Call.Args[pi], larg) {
+								bound = true
+							}
+						}
+						if !bound {
+							continue
+						}
+						key := fmt.Sprintf("%s range-loop%s vs %s > %s(%s)", funcKey(f), nth(li), funcKey(h), calleeName(&d.Call), render(d.Call.Args[0]))
+						c.fail(rule, key, ins.Pos(), fmt.Sprintf("%s deletes in place from the slice returned by %s, which shares its backing array with the slice this loop ranges over (%s): the element after the deleted one is skipped", funcKey(h), funcKey(lg), render(l.x)))
+					}
+				}
+			}
+		}
 		for _, b := range f.Blocks {
 			for _, ins := range b.Instrs {
 				call, ok := ins.(*ssa.Call)
@@ -552,4 +593,66 @@ func (c *Ctx) rangeDeleteLint(rule string, pkgs []string) {
 	if nLoops < 3 {
 		c.undecided(fmt.Sprintf("%s: only %d range-loop/in-place-delete pairs found (anchor drifted?)", rule, nLoops))
 	}
+}
+
+// inPlaceDeletes lists the slices.Delete/DeleteFunc/Insert/Compact calls of f.
+func inPlaceDeletes(f *ssa.Function) []*ssa.Call {
+	var out []*ssa.Call
+	for _, b := range f.Blocks {
+		for _, ins := range b.Instrs {
+			call, ok := ins.(*ssa.Call)
+			if !ok {
+				continue
+			}
+			fo := calleeObj(&call.Call)
+			if fo == nil || fo.Pkg() == nil || fo.Pkg().Path() != "slices" {
+				continue
+			}
+			switch calleeName(&call.Call) {
+			case "Delete", "DeleteFunc", "Insert", "Compact":
+				out = append(out, call)
+			}
+		}
+	}
+	return out
+}
+
+// getterOrigin: v is (a re-slice of / a local variable holding) the result of
+// a static single-argument call g(arg); returns g and arg.
+func getterOrigin(v ssa.Value, depth int) (*ssa.Function, ssa.Value) {
+	if depth > 6 {
+		return nil, nil
+	}
+	switch x := v.(type) {
+	case *ssa.Call:
+		if g := x.Call.StaticCallee(); g != nil && len(x.Call.Args) == 1 {
+			return g, x.Call.Args[0]
+		}
+		// x = slices.Delete(x, ...) chains keep the backing array
+		if fo := calleeObj(&x.Call); fo != nil && fo.Pkg() != nil && fo.Pkg().Path() == "slices" && len(x.Call.Args) > 0 {
+			switch calleeName(&x.Call) {
+			case "Delete", "DeleteFunc", "Compact":
+				return getterOrigin(x.Call.Args[0], depth+1)
+			}
+		}
+	case *ssa.Slice:
+		return getterOrigin(x.X, depth+1)
+	case *ssa.Phi:
+		for _, e := range x.Edges {
+			if g, a := getterOrigin(e, depth+1); g != nil {
+				return g, a
+			}
+		}
+	case *ssa.UnOp:
+		if al, ok := x.X.(*ssa.Alloc); ok && x.Op == token.MUL && al.Referrers() != nil {
+			for _, r := range *al.Referrers() {
+				if st, ok := r.(*ssa.Store); ok && st.Addr == ssa.Value(al) {
+					if g, a := getterOrigin(st.Val, depth+1); g != nil {
+						return g, a
+					}
+				}
+			}
+		}
+	}
+	return nil, nil
 }
